@@ -4,9 +4,12 @@
 // whether to continue or to hand the token to another thread (futex hand-off).
 //
 // Liveness is decided logically, never by wall-clock:
-//  * a thread that reaches a SPIN point is "spinning" until some other thread
-//    performs a write-kind step; spinning threads are not scheduled;
-//  * all unfinished threads spinning/blocked  => DEADLOCK verdict;
+//  * a thread that reaches a SPIN point (a wait-loop body or a back-off before a
+//    restart) is "spinning" until some thread performs a write-kind step; a
+//    spinning thread is scheduled only when no other thread can run;
+//  * every unfinished thread has spun kSpinLimit times in a row while nobody
+//    performed a write-kind step (the shared state cannot change any more)
+//    => DEADLOCK verdict;
 //  * more than max_steps steps in one execution => LIVELOCK verdict.
 // Both verdicts end the worker process after the report is written (threads
 // stuck inside library loops cannot be unwound); the driver resumes the
@@ -100,14 +103,17 @@ class scheduler {
   }
   bool is_active() const { return active.load(std::memory_order_acquire); }
 
-  // Parent (holding the token) reserves an id for a child thread.
+  // Parent (holding the token) reserves an id for a child thread. The child becomes
+  // schedulable only after activate(id), i.e. once its OS thread object exists.
   int spawn_slot() {
     const int id = nthreads++;
     if (id >= MAXT) { std::fprintf(stderr, "sched: too many threads\n"); std::abort(); }
-    th[id].registered = true;
     assign_priority(id);
-    note_write();
     return id;
+  }
+  void activate(int id) {
+    th[id].registered = true;
+    note_write();
   }
   // First call in the child thread: blocks until the scheduler hands it the token.
   void thread_start(int id) {
@@ -139,9 +145,9 @@ class scheduler {
     ++th[me].local_steps;
     ++th[me].op_steps;
     if (kind >= 0 && kind < 128) ++kind_counts[static_cast<std::size_t>(kind)];
-    if (kind == unodb::verif::SPIN) { th[me].spinning = true; ++spins; }
+    if (kind == unodb::verif::SPIN) { th[me].spinning = true; ++th[me].spin_streak; ++spins; }
     else if (kind == unodb::verif::RESTART) ++restarts;
-    if (is_write_kind(kind) || kind == K_HARNESS_WRITE) note_write_by(me);
+    if (is_write_kind(kind) || kind == K_HARNESS_WRITE) { note_write_by(me); th[me].spinning = false; th[me].spin_streak = 0; }
     if (steps > prm.max_steps) fatal_verdict("livelock", "execution exceeded the step budget under the scheduler");
     // parking requested by a directed script
     if (th[me].park_armed && th[me].op_steps == th[me].park_at) {
@@ -209,13 +215,13 @@ class scheduler {
     bool registered{false}, finished{false}, spinning{false}, cond_blocked{false}, parked{false}, park_armed{false}, park_hit{false};
     int join_target{-1};
     int priority{0};
-    u64 local_steps{0}, op_steps{0}, park_at{0};
+    u64 local_steps{0}, op_steps{0}, park_at{0}, spin_streak{0};
     std::function<bool()> pred;
     thread_rec() = default;
     thread_rec& operator=(thread_rec&& o) noexcept {
       go.store(0);
       registered = o.registered; finished = o.finished; spinning = o.spinning; cond_blocked = o.cond_blocked; parked = o.parked;
-      park_armed = o.park_armed; park_hit = o.park_hit; join_target = o.join_target; priority = o.priority; local_steps = o.local_steps; op_steps = o.op_steps; park_at = o.park_at;
+      park_armed = o.park_armed; park_hit = o.park_hit; join_target = o.join_target; priority = o.priority; local_steps = o.local_steps; op_steps = o.op_steps; park_at = o.park_at; spin_streak = o.spin_streak;
       pred = std::move(o.pred);
       return *this;
     }
@@ -241,13 +247,16 @@ class scheduler {
   }
 
   void note_write_by(int me) {
-    for (int t = 0; t < nthreads; ++t) if (t != me) th[t].spinning = false;
+    for (int t = 0; t < nthreads; ++t) if (t != me) { th[t].spinning = false; th[t].spin_streak = 0; }
   }
   void note_write() { note_write_by(tl_id); }
 
+  static constexpr u64 kSpinLimit = 50;
+
+  // runnable, ignoring the spinning flag
   bool eligible(int t) {
     auto& x = th[t];
-    if (!x.registered || x.finished || x.spinning || x.parked) return false;
+    if (!x.registered || x.finished || x.parked) return false;
     if (x.join_target >= 0 && !th[x.join_target].finished) return false;
     if (x.cond_blocked) {
       if (!x.pred()) return false;
@@ -261,7 +270,19 @@ class scheduler {
   int pick(int me, int kind) {
     int cand[MAXT];
     int n = 0;
-    for (int t = 0; t < nthreads; ++t) if (eligible(t)) cand[n++] = t;
+    int runnable[MAXT];
+    int nr = 0;
+    for (int t = 0; t < nthreads; ++t) if (eligible(t)) { runnable[nr++] = t; if (!th[t].spinning) cand[n++] = t; }
+    if (n == 0 && nr > 0) {
+      // only spinning threads can run: let them, unless all of them have spun many times with no write in between
+      bool exhausted = true;
+      for (int i = 0; i < nr; ++i) if (th[runnable[i]].spin_streak < kSpinLimit) exhausted = false;
+      if (!exhausted) {
+        int best = runnable[0];
+        for (int i = 1; i < nr; ++i) if (th[runnable[i]].spin_streak < th[best].spin_streak) best = runnable[i];
+        return best;
+      }
+    }
     if (n == 0) {
       bool any_unfinished = false;
       for (int t = 0; t < nthreads; ++t) if (th[t].registered && !th[t].finished) any_unfinished = true;
@@ -269,7 +290,7 @@ class scheduler {
       std::string w = "no runnable thread:";
       for (int t = 0; t < nthreads; ++t) {
         if (!th[t].registered || th[t].finished) continue;
-        w += " T" + std::to_string(t) + (th[t].spinning ? "=spinning" : (th[t].parked ? "=parked" : (th[t].cond_blocked ? "=blocked" : (th[t].join_target >= 0 ? "=joining" : "=?"))));
+        w += " T" + std::to_string(t) + (th[t].spinning ? "=spinning(x" + std::to_string(th[t].spin_streak) + ")" : (th[t].parked ? "=parked" : (th[t].cond_blocked ? "=blocked" : (th[t].join_target >= 0 ? "=joining" : "=?"))));
       }
       bool only_spin_or_join = true;
       for (int t = 0; t < nthreads; ++t) if (th[t].registered && !th[t].finished && (th[t].parked || th[t].cond_blocked)) only_spin_or_join = false;
@@ -336,7 +357,8 @@ class scheduler {
     tl_id = -1;
     // hand the token on; never returns to this thread
     int cand = -1;
-    for (int t = 0; t < s.nthreads; ++t) if (s.eligible(t) && (cand < 0 || s.th[t].priority > s.th[cand].priority)) cand = t;
+    for (int t = 0; t < s.nthreads; ++t) if (s.eligible(t) && !s.th[t].spinning && (cand < 0 || s.th[t].priority > s.th[cand].priority)) cand = t;
+    if (cand < 0) for (int t = 0; t < s.nthreads; ++t) if (s.eligible(t) && (cand < 0 || s.th[t].spin_streak < s.th[cand].spin_streak)) cand = t;
     if (cand < 0) {
       bool any = false;
       for (int t = 0; t < s.nthreads; ++t) if (s.th[t].registered && !s.th[t].finished) any = true;
